@@ -530,7 +530,7 @@ Proof.
   induction 1 as [|x l1 l2 HP IH|x y l|l1 l2 l3 HP1 IH1 HP2 IH2]; simpl; auto.
   - intros (H1 & H2). split; auto. intros b Hb. apply H1.
     apply (Permutation_in _ (Permutation_sym HP)). assumption.
-  - intros (H1 & H2 & H3). repeat split; auto.
+  - intros (H1 & H2 & H3). split; [|split; [|assumption]].
     + intros b [<-|Hb]; auto. intros Hc. apply (H1 x (or_introl eq_refl)). now apply clash_sym.
     + intros b Hb. apply H1. now right.
 Qed.
@@ -554,7 +554,7 @@ Lemma add_list_ok_iff : forall l t,
    (forall a k', In a l -> In k' (keys t) -> ~ clash (fst a) k')).
 Proof.
   induction l as [|(k, v) l IH]; intros t Hwf; simpl.
-  - split; [intros _|eauto]. repeat split; auto. intros a k' [].
+  - split; [intros _|eauto]. repeat split; auto; try (intros a k' []).
   - split.
     + intros (t' & H).
       destruct (add t 0 k v) as [t1| | |] eqn:Ha; simpl in H; try discriminate.
@@ -596,7 +596,7 @@ Theorem add_all_ok_iff : forall l,
 Proof.
   intros l. unfold Model.add_all. rewrite (add_list_ok_iff l E wf_E). split.
   - intros (A & B & _). auto.
-  - intros (A & B). repeat split; auto. intros a k' _ [].
+  - intros (A & B). repeat split; auto; try (intros a k' _ []).
 Qed.
 
 Theorem add_all_wf : forall l t,
@@ -705,8 +705,9 @@ Qed.
 
 Lemma wf_pairwise : forall t lvl, wf_at lvl t -> pairwise (leaves t).
 Proof.
-  induction t as [|k v|l IHl r IHr]; intros lvl Hwf; simpl; auto.
-  - split; auto. intros b [].
+  induction t as [|k v|l IHl r IHr]; intros lvl Hwf; simpl.
+  - exact I.
+  - split; [intros b []|exact I].
   - destruct Hwf as (Hlvl & _ & HL & HR & Hwl & Hwr).
     apply pairwise_app; eauto.
     intros a b Ha Hb Hc.
